@@ -28,8 +28,12 @@ from harness.props import c13_edits as E
 from harness.props import c13_progs as P
 
 PROP = "C13"
-FLAGS = ["q_splitlines_unicode", "q_ts_loc_raw_span", "q_bom_kept"]       # candidates 1, 2, 3 of Model/EditRun.v
-N_CANDS = 5
+# candidates of Model/EditRun.v: 0 claimed; 1 without q_splitlines_unicode; 2 without q_bom_kept; 3 without both;
+# 4 with q_bom_kept on; 5 with q_splitlines_unicode on (a repaired defect that came back)
+OFF_FLAGS = {1: "q_splitlines_unicode", 2: "q_bom_kept"}
+ON_FLAGS = {4: "q_bom_kept", 5: "q_splitlines_unicode"}
+IDEAL = 3
+N_CANDS = 6
 HEADER = ("From Coq Require Import NArith.\n"
           "From TL Require Import Lib.Base Lib.GenTypes Model.PyStr Model.Ignore Model.IgnoreRun Model.Edit Model.EditRun Actual.EditActual.\n")
 LANG_CODE = {"py": 0, "ts": 1, "js": 1, "rs": 2}
@@ -74,6 +78,43 @@ def lint(files_bytes, config):
                 msg = msg.replace(rt, "")
             out.append([v.rule_id, rel, int(v.line or 0), int(v.column or 0), msg])
         return {"v": sorted(out), "failures": drain_failures()}
+
+
+def _collect(vs, d):
+    out = []
+    roots = [str(d.resolve()) + "/", str(d) + "/"]
+    for v in vs:
+        try:
+            rel = str(Path(v.file_path).resolve().relative_to(d.resolve()))
+        except ValueError:
+            rel = str(v.file_path)
+        msg = v.message or ""
+        for rt in roots:
+            msg = msg.replace(rt, "")
+        out.append([v.rule_id, rel, int(v.line or 0), int(v.column or 0), msg])
+    return sorted(out)
+
+
+def lint_pair(files0, files1, config):
+    """both versions under the SAME paths through the SAME long-lived Orchestrator (its suppression parser, rule objects and
+    every per-path cache survive from the first run to the second): what an editor integration or a watch loop does"""
+    with scratch_dir("tv-c13s-") as d:
+        paths = []
+        for name, data in files0:
+            p = d / name
+            p.parent.mkdir(parents=True, exist_ok=True)
+            p.write_bytes(data)
+            paths.append(p)
+        o = make_orchestrator(d, config)
+        try:
+            r0 = {"v": _collect(o.lint_files(paths), d), "failures": drain_failures()}
+            for (name, data), p in zip(files1, paths):
+                p.write_bytes(data)
+            r1 = {"v": _collect(o.lint_files(paths), d), "failures": drain_failures()}
+        except Exception as e:  # noqa: BLE001
+            err = {"error": f"{type(e).__name__}: {e}", "v": [], "failures": drain_failures()}
+            return err, err
+        return r0, r1
 
 
 REF_RE = re.compile(r"([A-Za-z0-9_./-]+\.(?:py|ts|js|rs|tsx|jsx)):(\d+)(?:-(\d+))?")
@@ -176,15 +217,26 @@ def explain(rule, fn, cls, a, b, kind, lang, plan) -> tuple[str, str]:
 
 
 def run_obs(job):
+    if job.get("sweep"):
+        return run_gap_sweep(job)
+    return _run_obs(job)
+
+
+def _run_obs(job):
     """one project in two versions: lint both, compare up to the shift; on a difference walk through the plan one edit kind at a
     time (every step is a single-kind edit of an intermediate version) and key each failing step"""
     prog, plans, meta = job["prog"], job["plans"], job["meta"]
     names = [f["name"] for f in prog["files"]]
     langs = {f["name"]: f["lang"] for f in prog["files"]}
     empty = [E.Plan(pl.info, pl.base_crlf, pl.base_bom, []) for pl in plans]
-    base = job.get("base") or _lint_plans(prog, empty)
-    new = _lint_plans(prog, plans)
-    res = {"keys": {}, "failures": (base.get("failures") or []) + (new.get("failures") or []), "error": base.get("error") or new.get("error"),
+    same = bool(job.get("same_linter"))
+    if same:
+        base, new = lint_pair([(f["name"], pl.data()) for f, pl in zip(prog["files"], empty)],
+                              [(f["name"], pl.data()) for f, pl in zip(prog["files"], plans)], prog["config"])
+    else:
+        base = job.get("base") or _lint_plans(prog, empty)
+        new = _lint_plans(prog, plans)
+    res = {"keys": {}, "same_linter": same, "failures": (base.get("failures") or []) + (new.get("failures") or []), "error": base.get("error") or new.get("error"),
            "n_base": len(base["v"]), "rules": sorted({v[0] for v in base["v"]}), "base_v": base["v"][:3], "new_v": new["v"][:3]}
     if res["error"]:
         return res
@@ -208,6 +260,9 @@ def run_obs(job):
     if not whole:
         return res
     steps = []
+    if same:
+        # attribute with fresh linters; what only the long-lived linter shows is keyed as such below
+        base, new = _lint_plans(prog, empty), _lint_plans(prog, plans)
     if len(kinds) == 1:
         steps.append((kinds[0], base, empty, new, plans))
     else:
@@ -229,9 +284,11 @@ def run_obs(job):
             res["keys"].setdefault(f"{rk}|{k}|{ck}|{lang}", {"rule": rule, "file": fn, "expected": a[:4], "reported": b[:4],
                                                              "step": k, "operations_so_far": [pl.ops for pl in cp]})
     if not res["keys"]:
-        # the whole plan differs but no single step does: cannot happen for a composition of shifts; keep it visible
+        # the whole plan differs but no single step with fresh linters does: either only the long-lived linter shows it (state
+        # kept from the first version), or - impossible for a composition of shifts - nothing explains it; keep it visible
+        tag = "|same-linter" if same else ""
         for (rule, fn), (cls, a, b) in whole.items():
-            res["keys"][f"{rule}|{'+'.join(kinds)}|{cls}|{langs.get(fn, '?')}"] = {"rule": rule, "file": fn, "expected": a[:4], "reported": b[:4]}
+            res["keys"][f"{rule}|{'+'.join(kinds)}|{cls}|{langs.get(fn, '?')}{tag}"] = {"rule": rule, "file": fn, "expected": a[:4], "reported": b[:4]}
     return res
 
 
@@ -333,6 +390,31 @@ def filter_sweep(lang: str, text: str, tokens):
     return out
 
 
+_codec = None
+
+
+def source_codec() -> str:
+    """the codec FileLintContext.file_content decodes with, read from the source (the unit-level functions are given the text
+    as that layer hands it on: with "utf-8" a byte-order mark stays, with "utf-8-sig" it is dropped; line terminators are kept, as
+    for a caller that passes content itself)"""
+    global _codec
+    if _codec is None:
+        import ast as _ast
+        from translator import lib as tl
+        _codec = "utf-8"
+        try:
+            c = tl.find_class(tl.parse("src/orchestrator/core.py"), "FileLintContext")
+            f = tl.find_func(c, "file_content")
+            for n in _ast.walk(f):
+                if isinstance(n, _ast.Call) and isinstance(n.func, _ast.Attribute) and n.func.attr == "read_text":
+                    for k in n.keywords:
+                        if k.arg == "encoding" and isinstance(k.value, _ast.Constant):
+                            _codec = str(k.value.value)
+        except Exception:  # noqa: BLE001
+            pass
+    return _codec
+
+
 def run_unit(job):
     """both versions of one file through the text-level functions"""
     lang, plan = job["lang"], job["plan"]
@@ -342,13 +424,17 @@ def run_unit(job):
     ps0, es, ps1, added = ce
     c0, c1 = "\n".join(ps0), "\n".join(ps1)
     try:
-        u0, u1 = unit_impl(lang, c0), unit_impl(lang, c1)
+        ic0, ic1 = plan.base_data().decode(source_codec()), plan.data().decode(source_codec())
+    except (LookupError, UnicodeDecodeError):
+        ic0, ic1 = c0, c1
+    try:
+        u0, u1 = unit_impl(lang, ic0), unit_impl(lang, ic1)
     except Exception as e:  # noqa: BLE001
         return {"error": f"{type(e).__name__}: {e}"}
     sl, _ = plan.shifter()
     qs = job["queries"]
-    i0 = c04.impl_unit(c0, qs)
-    i1 = c04.impl_unit(c1, [(sl(v), r) for v, r in qs])
+    i0 = c04.impl_unit(ic0, qs)
+    i1 = c04.impl_unit(ic1, [(sl(v), r) for v, r in qs])
     filters = {}
     if job.get("sweep_filters") and lang in ("py", "ts", "js") and not c0.startswith(E.BOM) and "\r" not in c0:
         filters = filter_sweep(lang, c0, u0["tokens"])
@@ -522,11 +608,13 @@ def same_program(prog, plans) -> str | None:
 def load_known(chk: Check):
     p = VERIF / "known.d" / f"{PROP}.json"
     if p.exists():
+        # known.d/C13.json is the source of known_findings.json (assembled by tools/mkmanifest.py) and therefore authoritative
+        chk.known = {"known": {}, "fixed": {}}
         for f in json.loads(p.read_text()).get("findings", []):
             if f.get("property") == PROP and f.get("status") == "known":
-                chk.known["known"].setdefault(f["key"], f)
+                chk.known["known"][f["key"]] = f
             elif f.get("property") == PROP and str(f.get("status", "")).startswith("fixed"):
-                chk.known["fixed"].setdefault(f["key"], f)
+                chk.known["fixed"][f["key"]] = f
 
 
 def corpus_programs():
@@ -537,7 +625,7 @@ def corpus_programs():
     return out
 
 
-def build_jobs(progs, seed, sets_per_prog, chk):
+def build_jobs(progs, seed, sets_per_prog, chk, sweep_gaps=0):
     """base lint of every program (parallel), decoration, plans"""
     bases = pool_map(_base_job, progs, procs=8)
     progs2 = []
@@ -574,8 +662,65 @@ def build_jobs(progs, seed, sets_per_prog, chk):
                 chk.notes.append(f"edit plan dropped: the edited text of {prog['id']}:{bad} does not parse to the same program (harness guard)")
                 chk.dist("plan:dropped-not-same-program")
                 continue
-            jobs.append({"prog": prog, "plans": plans, "meta": meta, "base": base if not any(pl.base_crlf or pl.base_bom for pl in plans) else None})
+            same = rng_for(seed, PROP, "same", prog["id"], len(jobs)).random() < 0.4 or bool(meta.get("same_linter"))
+            meta = dict(meta, same_linter=same)
+            jobs.append({"prog": prog, "plans": plans, "meta": meta, "same_linter": same,
+                         "base": base if not any(pl.base_crlf or pl.base_bom for pl in plans) else None})
+        if sweep_gaps and len(prog["files"]) == 1 and infos[0].n <= sweep_gaps and not prog.get("plans") \
+                and (sweep_gaps > 40 or prog["source"].startswith(("docs", "idioms")) or len(jobs) % 3 == 0):
+            jobs.extend(gap_sweep_jobs(prog, infos[0], base))
     return jobs
+
+
+def gap_sweep_jobs(prog, info, base):
+    """one job: a blank line and a comment line at EVERY admissible gap between the lines of a small single-file program"""
+    return [{"prog": prog, "plans": [E.Plan(info)], "base": base, "same_linter": False, "sweep": True,
+             "meta": {"label": "gap-sweep", "below_header": False, "kinds": ["insert_blank", "insert_comment"], "same_linter": False}}]
+
+
+def run_gap_sweep(job):
+    """every single-line insertion into one small file, each variant a file of its own in one scratch project, linted file by file by
+    one Orchestrator (per-file rules only: no finalize phase, so cross-file rules stay silent); a rule that ties two statements
+    together by their line distance is caught whatever the gap"""
+    prog = job["prog"]
+    f = prog["files"][0]
+    info = job["plans"][0].info
+    cm = E.COMMENT[info.lang]
+    res = {"keys": {}, "failures": [], "error": None, "n_base": 0, "rules": [], "base_v": [], "new_v": [], "same_linter": False, "variants": 0}
+    variants = []
+    for o in E.Plan(info).insert_anchors(below_header=False):
+        near = info.lines[o] if o < info.n else ""
+        for op in (["ins_blank", o, ""], ["ins_comment", o, E._lead(near) + cm + " note"]):
+            pl = E.Plan(info, ops=[op])
+            if pl.header_window_ok() and E.shape(info.lang, pl.text()) == E.shape(info.lang, info.text):
+                variants.append(pl)
+    with scratch_dir("tv-c13g-") as d:
+        o = make_orchestrator(d, prog["config"])
+
+        def one(sub, data):
+            p = d / sub / f["name"]
+            p.parent.mkdir(parents=True, exist_ok=True)
+            p.write_bytes(data)
+            return [[v[0], f["name"], v[2], v[3], v[4]] for v in _collect(o.lint_file(p), d / sub)]
+        try:
+            base_v = one("base", f["text"].encode("utf-8"))
+            res["n_base"], res["rules"], res["base_v"] = len(base_v), sorted({v[0] for v in base_v}), base_v[:3]
+            for i, pl in enumerate(variants):
+                got = one(f"v{i}", pl.data())
+                op = pl.ops[0]
+                below = op[1] >= max(info.header_end, 1)
+                exp = expected_after(base_v, [f["name"]], {f["name"]: pl.shifter()})
+                devs = deviations(exp, got, {f["name"]: f["lang"]}, () if below else tuple(E.HEADER_SENSITIVE))
+                for (rule, fn), (cls, a, b) in devs.items():
+                    kind = pl.kinds()[0]
+                    rk, ck = explain(rule, fn, cls, a, b, kind, f["lang"], pl)
+                    res["keys"].setdefault(f"{rk}|{kind}|{ck}|{f['lang']}", {"rule": rule, "file": fn, "expected": a[:4], "reported": b[:4],
+                                                                            "step": kind, "operations_so_far": [pl.ops]})
+            res["variants"] = len(variants)
+            res["failures"] = drain_failures()
+        except Exception as e:  # noqa: BLE001
+            res["error"] = f"{type(e).__name__}: {e}"
+    return res
 
 
 def _base_job(prog):
@@ -591,6 +736,8 @@ def unit_jobs(jobs, seed, cap):
     swept = set()
     for j, job in enumerate(jobs):
         prog = job["prog"]
+        if job["meta"].get("label") == "gap-sweep":
+            continue
         for f, pl in zip(prog["files"], job["plans"]):
             if not pl.ops or pl.info.n > MAX_UNIT_LINES or any(o[0] == "rename" for o in pl.ops):
                 continue
@@ -665,14 +812,16 @@ def run(tier: str, seed: int, replay: str | None = None) -> int:
         if quick:
             docs = [p for p in docs if r0.random() < 0.5]
         progs = corpus_programs() + docs + gen
-    jobs = build_jobs(progs, seed, sets_per_prog, chk)
+    jobs = build_jobs(progs, seed, sets_per_prog, chk, sweep_gaps=40 if quick else 80)
     results = pool_map(run_obs, jobs, procs=8)
     # ---------------------------------------------------------------- observable level
     for job, res in zip(jobs, results):
         prog, meta = job["prog"], job["meta"]
         ops = [pl.ops for pl in job["plans"]]
         nontrivial = bool(res.get("n_base"))
-        chk.count([[f["text"] for f in prog["files"]], _ops_key(ops)], nontrivial)
+        chk.count([[f["text"] for f in prog["files"]], _ops_key(ops), meta["label"]], nontrivial)
+        if meta["label"] == "gap-sweep":
+            chk.dist("gap-sweep:variants", res.get("variants", 0))
         chk.dist("source:" + prog["source"].split(":")[0])
         chk.dist("plan:" + meta["label"])
         for k in meta["kinds"]:
@@ -682,6 +831,7 @@ def run(tier: str, seed: int, replay: str | None = None) -> int:
         for rl in res.get("rules", []):
             chk.dist("base-rule:" + rl)
         chk.dist("below_header" if meta["below_header"] else "anywhere")
+        chk.dist("linter:same-long-lived" if meta.get("same_linter") else "linter:fresh")
         payload = {"program": _slim(prog), "plans": ops, "meta": meta}
         if res.get("error"):
             chk.violation({"reason": "the linter run raised: " + res["error"], **payload})
@@ -691,7 +841,10 @@ def run(tier: str, seed: int, replay: str | None = None) -> int:
             continue
         for key, d in sorted(res["keys"].items()):
             case = {"key": key, "deviation": d, **payload}
-            if key in chk.known["known"]:
+            if meta["label"] == "gap-sweep" and d.get("operations_so_far"):
+                case["plans"] = d["operations_so_far"]
+                case["meta"] = dict(meta, label="corpus")
+            if key in chk.known["known"] or key in chk.known["fixed"]:
                 chk.known_finding(key, case)
             elif _COLLECT is not None:
                 _COLLECT[key] = _COLLECT.get(key, 0) + 1
@@ -722,7 +875,7 @@ def run(tier: str, seed: int, replay: str | None = None) -> int:
             key = f"dry-filter:{name}|decision|{uj['lang']}"
             case = {"key": key, "window_and_decisions": d, "file": uj["file"], "program": _slim(jobs[uj["job"]]["prog"])}
             chk.dist("unit:filter-deviation")
-            if key in chk.known["known"]:
+            if key in chk.known["known"] or key in chk.known["fixed"]:
                 chk.known_finding(key, case)
             elif _COLLECT is not None:
                 _COLLECT[key] = _COLLECT.get(key, 0) + 1
@@ -761,7 +914,12 @@ def run(tier: str, seed: int, replay: str | None = None) -> int:
             inv = [bool(bits[2 + 2 * c]) for c in range(N_CANDS)]
             cands_all = [a and b for a, b in zip(cands_all, corr)]
             if not corr[0]:
-                if not any(corr):
+                back = [ON_FLAGS[c] for c in ON_FLAGS if corr[c]]
+                if back and not any(corr[c] for c in (1, 2, 3)):
+                    # the implementation behaves like the model with a flag switched ON that the claimed vector has off
+                    for k in back:
+                        chk.known_finding(k, {"observable": lab, "note": "the implementation matches the model only with this flag on", **payload})
+                elif not any(corr):
                     chk.correspondence_broken({"level": "unit", "observable": lab, "detail": "no candidate quirk vector reproduces the implementation's "
                                                "text-level result on both versions", **payload})
                     if not inv_impl:
@@ -769,18 +927,18 @@ def run(tier: str, seed: int, replay: str | None = None) -> int:
                 continue
             if inv_impl:
                 continue
-            relevant = [FLAGS[i] for i in range(3) if inv[1 + i]]
-            if inv[4] and not relevant:
-                relevant = list(FLAGS)
-            if inv[4] and relevant:
+            relevant = [OFF_FLAGS[c] for c in OFF_FLAGS if inv[c]]
+            if inv[IDEAL] and not relevant:
+                relevant = list(OFF_FLAGS.values())
+            if inv[IDEAL] and relevant:
                 for k in relevant:
                     chk.known_finding(k, {"observable": lab, **payload})
             else:
                 chk.violation({"reason": f"text-level step not invariant under the edit and not explained by a listed flag: {lab}", **payload})
     if units and not cands_all[0]:
         alt = [i for i, ok in enumerate(cands_all) if ok]
-        names = ["actual", "actual without q_splitlines_unicode", "actual without q_ts_loc_raw_span", "actual without q_bom_kept", "all three off"]
-        if alt:
+        names = ["actual", "actual without q_splitlines_unicode", "actual without q_bom_kept", "both off", "actual with q_bom_kept", "actual with q_splitlines_unicode"]
+        if alt and alt[0] in (1, 2, 3):
             chk.notes.append("implementation no longer matches the claimed quirk vector on every unit case but matches: " + names[alt[0]] +
                              " (a listed defect is no longer observed; the theorems hold for every vector)")
     if _COLLECT is not None:
